@@ -204,7 +204,8 @@ func WorkerMain(t *testing.T) {
 	if scratch == "" {
 		scratch = "/dev/shm"
 	}
-	scratch = filepath.Join(scratch, fmt.Sprintf("verif-%d", os.Getpid()))
+	scratch = filepath.Join(scratch, fmt.Sprintf("verif-%d-%d", os.Getpid(), time.Now().UnixNano()))
+	os.RemoveAll(scratch)
 	os.MkdirAll(scratch, 0755)
 	defer os.RemoveAll(scratch)
 
@@ -263,6 +264,7 @@ func WorkerMain(t *testing.T) {
 			c.stream, _ = os.OpenFile(sf, os.O_CREATE|os.O_WRONLY|os.O_TRUNC, 0644)
 		}
 		dir := filepath.Join(scratch, fmt.Sprintf("run-%d", run))
+		os.RemoveAll(dir)
 		os.MkdirAll(dir, 0755)
 		meta := &ViolationRecord{Property: prop, Flavour: flavourName, Seed: seed, Run: run, Tier: tier}
 		curMeta.Store(meta)
